@@ -10,7 +10,8 @@ for d in seeded/*/; do
   out=$(tools/run_seeded.sh /verif/$d $chk 2>&1)
   if echo "$out" | grep -q "^VIOLATION"; then
     cls=$(echo "$out" | grep -oE "class=[a-zA-Z_:]+" | sort -u | tr '\n' ' ')
-    echo "$id $chk CAUGHT $cls"
+    rate=$(echo "$out" | grep -oE "runs=[0-9]+|violating=[0-9]+" | tr '\n' ' ')
+    echo "$id $chk CAUGHT [$rate] $cls"
   else
     echo "$id $chk MISSED $(echo "$out" | grep -E "quick|exit=|HARNESS|patch failed" | tr '\n' ' ' | cut -c1-200)"
   fi
